@@ -68,6 +68,14 @@ func (p *Program) verifyFunc(name string) *FuncResult {
 	}
 	f.entry = st.clone()
 	f.alloc0 = st.alloc
+	// axioms (definitions of opaque spec functions and assumed lemmas; listed in the evidence)
+	for _, ax := range p.CS.Axioms {
+		if ax.Lemma {
+			continue
+		}
+		env := &specEnv{f: f, st: st, old: st, noProgram: true, callSite: true}
+		e.assert(f.specBool(ax.Expr, env))
+	}
 	if ct != nil {
 		env := &specEnv{f: f, st: st, old: st}
 		var reqs []string
